@@ -10,6 +10,7 @@ from .values import *
 from .interp_api import PathEnd, Unmodelled, wrap
 
 REGISTRY = {}
+OVERRIDES = {}   # crate functions replaced by environment stubs (file system)
 
 
 def model(*keys):
@@ -283,6 +284,25 @@ def default_like(I, v):
         if c:
             return I.exec_body(I.prog.get(c[0][0]), c[0][0], [])
     raise Unmodelled('Default for %r' % (v,))
+
+
+def override(*keys):
+    def deco(f):
+        for k in keys:
+            OVERRIDES[k] = f
+        return f
+    return deco
+
+
+@override('loader::load')
+def stub_loader_load(I, args, callee):
+    """environment stub: every file access fails (include files are unreadable) - stated in the evidence"""
+    return err(Adt('A2lError', 'FileOpenError', [Opaque('PathBuf'), Opaque('io::Error')]))
+
+
+@override('loader::make_include_filename', 'make_include_filename')
+def stub_make_include_filename(I, args, callee):
+    return StringV(list(items_of(args[0])))
 
 
 def load_all():
